@@ -26,7 +26,7 @@ fn c15_bitwin_forwards() {
     kani::cover!(step == 0);
 }
 
-// vp: props=C15,C06; tag=C15.bitwin.forwards.initial; kind=complete; tier=quick
+// vp: props=C15,C06; tag=C15.bitwin.forwards.initial; kind=complete; tier=thorough
 // from BitWindow::new() the first window is [0, step)
 #[kani::proof]
 fn c15_bitwin_new_forwards() {
